@@ -637,3 +637,24 @@ package loader
 //@   ensures old(len(consOf(node).order) - (hasRule(node, constraint.OptionalConstraintType) ? 1 : 0) - (hasRule(node, constraint.NullableConstraintType) ? 1 : 0)) == 1
 //@           && (isBranch(node) || (typeis(node, *schema.MixedValueNode) && old(typeConstraint.source) != jschema.RuleASTNodeSourceGenerated))
 //@           ==> panics && typeis(pv, errors.ErrorCode) && unbox(pv, errors.ErrorCode) == errors.ErrInvalidChildNodeTogetherWithTypeReference
+
+//@ func init$1(node)
+//@   props C08
+//@   requires isNode(node) && consReady(node) && rulesTyped(node)
+//@   maypanic
+//@   ensures panics <==> !(hasRule(node, constraint.TypesListConstraintType) && len(unbox(consOf(node).data[constraint.TypesListConstraintType], *constraint.TypesList).innerTypeNames) >= 2)
+//@   ensures panics ==> typeis(pv, errors.ErrorCode) && unbox(pv, errors.ErrorCode) == errors.ErrNotFoundRuleOr
+// (the handlers of the type keywords are function literals of a package-level table:
+// init$1 = "mixed" above, init$2 = "enum", init$4 = "decimal")
+//@ func init$2(node)
+//@   props C08
+//@   requires isNode(node) && consReady(node)
+//@   maypanic
+//@   ensures panics <==> !hasRule(node, constraint.EnumConstraintType)
+//@   ensures panics ==> typeis(pv, errors.ErrorCode) && unbox(pv, errors.ErrorCode) == errors.ErrNotFoundRuleEnum
+//@ func init$4(node)
+//@   props C08 C10
+//@   requires isNode(node) && consReady(node)
+//@   maypanic
+//@   ensures panics <==> !hasRule(node, constraint.PrecisionConstraintType)
+//@   ensures panics ==> typeis(pv, errors.ErrorCode) && unbox(pv, errors.ErrorCode) == errors.ErrNotFoundRulePrecision
